@@ -19,7 +19,7 @@ RULE = ("Hypothesis: mido files with ticks_per_beat from {24,48,96,120,192,240,3
         "note_on velocity 0; time/key signatures (only key names KeyKeyMapping lists) at least 2 library ticks apart per kind "
         "over the whole file; tempo/text meta messages and control/program changes carrying delta time. Groupings: disjoint "
         "non-empty groups over a subset of the tracks, any subset as meta indices, any valid target index; a quarter of the "
-        "cases go through a real file. Oracle: exact positions are Fractions file_tick*24/tpb; per group the output sounding set "
+        "cases go through a real file; a quarter of the in-memory cases load the same parsed MidiFile object once before (default grouping). Oracle: exact positions are Fractions file_tick*24/tpb; per group the output sounding set "
         "G satisfies must <= G <= may, where must/may take for every note end the latest/earliest tick within 1/2 of its exact "
         "position (they differ only at exact .5 ties) over the union of the group's tracks; no pairing anomaly; tracks outside "
         "every group contribute no notes; every signature of a considered track that does not repeat the one in force is on "
